@@ -22,7 +22,9 @@ def cells_vs_quadrature(inp):
     if 'time_1 != 0' in which:
         cases = [('upper-triangle', 0.1, 0.3, None)]
     else:
-        cases = [('upper-triangle', 0.1, 0.0, None), ('square', 0.1, 0.3, None), ('rectangle', 0.1, 0.3, 0.55), ('square', 0.2, 0.2, None)]
+        cases = [('upper-triangle', 0.1, 0.0, None), ('square', 0.1, 0.3, None), ('rectangle', 0.1, 0.3, 0.55), ('square', 0.2, 0.2, None),
+                 # cells off the TEMPO grid that straddle the diagonal (tau = x - y changes sign inside the cell)
+                 ('square', 0.1, 0.04, None), ('rectangle', 0.1, 0.02, 0.07), ('rectangle', 0.2, 0.05, 0.3)]
     for c in objs:
         for shape, d, t1, t2 in cases:
             kw = {'time_2': t2} if t2 is not None else {}
